@@ -119,6 +119,10 @@ def extract(name):
     key = unit_key(name)
     d = os.path.join(CACHE, key)
     os.makedirs(d, exist_ok=True)
+    try:
+        os.utime(d)          # mark as in use (the pruning below spares recently used directories)
+    except OSError:
+        pass
     out = os.path.join(d, name + ".jsonl")
     if os.path.exists(out) or os.path.exists(out + ".pickle"):
         return out
@@ -149,8 +153,10 @@ def _prune_cache(keep):
         ds = [x for x in ds if os.path.isdir(x) and os.path.basename(x) != "gen"]
         ds.sort(key=os.path.getmtime, reverse=True)
         import shutil
+        now = time.time()
         for x in ds[10:]:
-            if os.path.basename(x) != keep:
+            # never remove something another check process may be using right now
+            if os.path.basename(x) != keep and now - os.path.getmtime(x) > 3600:
                 shutil.rmtree(x, ignore_errors=True)
     except OSError:
         pass
